@@ -14,7 +14,7 @@ import (
 func init() {
 	register("C13", 40, "Decided (for every path of the current source): (R1) a chunk is parked only while the relay mutex is held, on the handshaking edge of a status load made under that same lock; parking/popping/line-reading on the handshake buffers happens only in the designated functions; (R2) the flush drains both buffers and then changes the status inside one lock-held region, the partially consumed chunk's remainder is returned before the queue; (R3) the status is set to handshaking before the handshake worker starts and before the trigger chunk is forwarded; (R4) the status word has exactly three writers; (R5) in each of the four pumps every non-empty chunk is parked or sent on its own direction's channel, never both, never neither, and each channel's consumer writes to the matching side; (R6) every pump reads into a fresh buffer per iteration; (R7) every exit of the handshake worker flushes. Not decided: exhaustive interleavings, sufficiency of the lock discipline (that is model checking). Added to R3/R5: the trigger is recorded before the worker starts; a pump that read the status as handshaking offers the chunk to the parking function before any forward; pumps end only on EOF.",
 		func(c *Ctx) {
-			c.run("C13-R1", "PAIR+GUARD-DOM: park under the lock, after re-reading the status", c13R1)
+			c.run("C13-R1", "PAIR+GUARD-DOM: park under the lock, after re-reading the status", func(c *Ctx) { c13R1(c); c13R1b(c) })
 			c.run("C13-R2", "PAIR+ORDER: flush then switch, under the same lock", c13R2)
 			c.run("C13-R3", "ORDER: status handshaking before the worker starts and before the trigger is forwarded", c13R3)
 			c.run("C13-R4", "WHO-WRITES: the three writers of the relay status", c13R4)
@@ -148,6 +148,44 @@ func c13R1(c *Ctx) {
 		for _, cs := range c.callersOf(g) {
 			c.check(hsReach[cs.Caller], "who-calls/"+name+"<-"+c.fnName(cs.Caller), c.ipos(cs.Instr), "relay line reader used only by the handshake worker", "relay line reader called outside the handshake worker")
 		}
+	}
+}
+
+// c13R1b: the parking decision as a truth table (the condition is a disjunction, so no single dominating fact
+// describes it): handshaking + in-band chunk + tunnel not in use -> parked; handshaking + tunnel chunk -> parked;
+// not handshaking -> not parked; in-band chunk while the tunnel is in use -> not parked.
+func c13R1b(c *Ctx) {
+	f := c.fn("TrzszRelay.addHandshakeBuffer")
+	hs := c.constVal("kRelayHandshaking")
+	adds := callsIn(f, idIs("(*trzsz.trzszBuffer).addBuffer"))
+	if len(adds) != 1 {
+		c.lost("addBuffer in addHandshakeBuffer")
+	}
+	status := func(val bool) assumption {
+		return assumption{val: val, cmp: func(op token.Token, x, y ssa.Value) (bool, bool) {
+			call, _ := callOf(x)
+			if (op != token.EQL && op != token.NEQ) || call == nil || !isStatusCall(call, "Load") || !isConstIntV(hs)(y) {
+				return false, false
+			}
+			return true, op == token.EQL
+		}}
+	}
+	tunnel := func(val bool) assumption { return assumption{pred: isVar("tunnel"), val: val} }
+	conn := func(val bool) assumption {
+		return assumption{pred: func(v ssa.Value) bool { call, _ := callOf(v); return call != nil && isAtomicOnField(call, "tunnelConnected", "Load") }, val: val}
+	}
+	for _, w := range []struct {
+		name string
+		as   []assumption
+		park bool
+	}{
+		{"handshaking,in-band,no-tunnel", []assumption{status(true), tunnel(false), conn(false)}, true},
+		{"handshaking,tunnel-chunk", []assumption{status(true), tunnel(true)}, true},
+		{"not-handshaking", []assumption{status(false)}, false},
+		{"in-band-while-tunnel-in-use", []assumption{status(true), tunnel(false), conn(true)}, false},
+	} {
+		got := blocksUnder(f, w.as)[adds[0].Block()]
+		c.check(got == w.park, "addHandshakeBuffer/decision@"+w.name, c.ipos(adds[0]), "this case is parked / not parked as the hand-over requires", "the parking decision is wrong for '"+w.name+"' (a chunk that must wait overtakes the parked ones, or a chunk that must pass is held)")
 	}
 }
 
@@ -478,6 +516,30 @@ func c13R5(c *Ctx) {
 		}
 		hit5, path5 := reachFromE(read.Block(), instrIndex(read)+1, isReturn, nil, eofEdge)
 		c.check(hit5 == nil, ps.fn+"/ends-only-on-EOF", c.ipos(read), "the pump ends only on the edge where its source reported EOF", "the pump can end although its source is still open: the relay stops forwarding this direction", c.pathStr(path5)...)
+		// after EOF no further read (off Windows, where the console's EOF is answered with Ctrl-Z and reading goes on)
+		notWin := func(from, to *ssa.BasicBlock) bool {
+			for _, fc := range edgeFactsTo(from, to) {
+				if call, _ := callOf(fc.V); call != nil && calleeID(&call.Call) == "trzsz.isRunningOnWindows" && fc.Pol {
+					return true
+				}
+			}
+			return false
+		}
+		nEOF := 0
+		defer func(fn string, pos string) {
+			if nEOF == 0 {
+				c.bad(fn+"/EOF-ends-pump", pos, "the pump has no exit on EOF of its source: it reads a closed source for ever and its channel is never closed")
+			}
+		}(ps.fn, c.pos(f.Pos()))
+		for _, b := range f.Blocks {
+			for _, sx := range b.Succs {
+				if len(b.Succs) == 2 && b.Succs[0] != b.Succs[1] && eofEdge(b, sx) {
+					nEOF++
+					hit6, path6 := reachFromE(sx, 0, func(in ssa.Instruction) bool { return in == ssa.Instruction(read) }, nil, notWin)
+					c.check(hit6 == nil, ps.fn+"/EOF-ends-pump", c.pos(b.Instrs[len(b.Instrs)-1].Pos()), "after EOF the pump does not read again", "after EOF the pump reads again: it spins on a closed source and its channel is never closed", c.pathStr(path6)...)
+				}
+			}
+		}
 		// a pump that saw the status "handshaking" must offer the chunk to the parking function before it may forward it
 		hs := c.constVal("kRelayHandshaking")
 		nHS := 0
